@@ -752,6 +752,10 @@ class SymFloat:
         self.pytype = pytype
 
     def _cmp(s, o, fn):
+        if isinstance(o, SymInt):
+            # Python compares int with float exactly; the double conversion used here is exact only up to 2**53:
+            # stated bound for mixed int/float comparisons
+            CUR.assume(z3.And(o.e >= -(2 ** 53), o.e <= 2 ** 53))
         z = fpval(o) if not isinstance(o, SymInt) else int_to_double_term(o)
         if z is NotImplemented:
             return NotImplemented
